@@ -85,13 +85,23 @@ type Runner struct {
 	Special string
 	Retain  int64
 	Mempool string
+	// AbsentValidator: the genesis has a second validator (power 1 of 11) that never shows up, so the node is not
+	// "the only validator" (that special case switches block sync and state sync off whatever the configuration says).
+	AbsentValidator bool
+	// StateSyncLeftOn: every incarnation after the template run has statesync.enable = true in its configuration
+	// (an operator who state-synced the node once and never switched it off again): a node with local state must ignore it.
+	StateSyncLeftOn bool
 }
 
 func walHead(home string) string { return filepath.Join(home, "data", "cs.wal", "wal") }
 
 // InitHome creates a fresh home and advances it cleanly to height h0.
 func (r *Runner) InitHome(home string, h0 int64) error {
-	if out, err := exec.Command(r.Bin, "-home", home, "-mode", "init").CombinedOutput(); err != nil {
+	initArgs := []string{"-home", home, "-mode", "init"}
+	if r.AbsentValidator {
+		initArgs = append(initArgs, "-absentval")
+	}
+	if out, err := exec.Command(r.Bin, initArgs...).CombinedOutput(); err != nil {
 		return fmt.Errorf("crashbox init: %v: %s", err, out)
 	}
 	if h0 > 0 {
@@ -123,6 +133,9 @@ func (r *Runner) runInc(home string, inc int, st Step) IncResult {
 	}
 	if r.Mempool != "" {
 		args = append(args, "-mempool", r.Mempool)
+	}
+	if r.StateSyncLeftOn && inc > 0 {
+		args = append(args, "-statesync")
 	}
 	env := append(os.Environ(), "VERIF_HOOK_JOURNAL="+filepath.Join(home, "hookjournal"))
 	switch {
@@ -267,7 +280,11 @@ func (r *Runner) Run(template string, name string, steps []Step, rnd func(int64)
 		res.Incs = append(res.Incs, ir)
 	}
 	// final: handshake only
-	out, err := exec.Command(r.Bin, "-home", home, "-mode", "handshake", "-inc", strconv.Itoa(len(steps)+1)).CombinedOutput()
+	hsArgs := []string{"-home", home, "-mode", "handshake", "-inc", strconv.Itoa(len(steps) + 1)}
+	if r.StateSyncLeftOn {
+		hsArgs = append(hsArgs, "-statesync")
+	}
+	out, err := exec.Command(r.Bin, hsArgs...).CombinedOutput()
 	found := false
 	for _, l := range strings.Split(string(out), "\n") {
 		if strings.HasPrefix(l, "CRASHBOX-HANDSHAKE ") {
